@@ -363,6 +363,7 @@ func (e *Engine) shapeSig(st *State) string {
 		}
 	}
 	fmt.Fprintf(&sb, "|go%d", st.goCount)
+	sb.WriteString("|split:" + st.split)
 	st.sig = sb.String()
 	return st.sig
 }
@@ -374,6 +375,9 @@ func (e *Engine) mergeAtJoin(a, b *State) (*State, bool) {
 		return nil, false
 	}
 	fa, fb := a.top(), b.top()
+	if a.split != b.split {
+		return jf("verifConcretize case split")
+	}
 	if fa.fn != fb.fn || fa.block != fb.block || fa.ip != fb.ip || len(fa.defers) != len(fb.defers) || a.goCount != b.goCount {
 		return jf("position")
 	}
